@@ -88,6 +88,9 @@ func NewEpochsContext(spec *Spec, state BeaconState) (*EpochsContext, error) {
 	if err := epc.LoadProposers(state); err != nil {
 		return nil, err
 	}
+	if w, ok := state.(WrappedBeaconState); ok {
+		state = w.UnwrapBeaconState()
+	}
 	if syncState, ok := state.(SyncCommitteeBeaconState); ok {
 		if err := epc.LoadSyncCommittees(syncState); err != nil {
 			return nil, err
@@ -227,6 +230,10 @@ func (epc *EpochsContext) RotateEpochs(state BeaconState) error {
 	}
 	if err := epc.loadCurrentStake(state, indicesBounded); err != nil {
 		return err
+	}
+	// a wrapper (e.g. the upgradeable state ProcessSlots passes in) does not show the capabilities of the state it holds
+	if w, ok := state.(WrappedBeaconState); ok {
+		state = w.UnwrapBeaconState()
 	}
 	if syncState, ok := state.(SyncCommitteeBeaconState); ok {
 		// if the state has a list of sync committee pubkeys, we want to cache the indices of that sync committee
